@@ -71,6 +71,8 @@ func (e *Emitter) Close(statsPath string) {
 	}
 }
 
+func jsonValid(s string) bool { return json.Valid([]byte(s)) }
+
 func main() {
 	if len(os.Args) < 2 {
 		fmt.Fprintln(os.Stderr, "usage: harness <profile> [flags]")
@@ -88,6 +90,8 @@ func main() {
 	switch profile {
 	case "rns":
 		runRns(*seed, *hist, *steps, out)
+	case "notif":
+		runNotif(*seed, *hist, *steps, out)
 	default:
 		fmt.Fprintln(os.Stderr, "unknown profile", profile)
 		os.Exit(2)
